@@ -1204,13 +1204,29 @@ def required_stream():
     if _REQUIRED is None:
         base = families(C.Rng(REQUIRED_SEED + 1))
         kept, left = F.greedy_required(draw_one, run, stats, problems, base, REQUIRED_SEED)
-        _REQUIRED = [dict(c, required=True) for c in base + kept]
+        _REQUIRED = [dict(c, required=True) for c in kept]
     return [dict(c) for c in _REQUIRED]
+
+
+def write_required():
+    """(re)write corpus/C08/req_*.json: the greedy cover is computed once (it needs ~1000 implementation runs) and kept
+    as corpus cases, which ./check runs first under every seed and tier.  Run after changing the generator:
+    PYTHONPATH=/repo PYTHONHASHSEED=0 /venv/bin/python -c "from harness import c08; c08.write_required()" """
+    import os
+    d = os.path.join(C.CORPUS, PROP)
+    os.makedirs(d, exist_ok=True)
+    for fn in os.listdir(d):
+        if fn.startswith("req_"):
+            os.remove(os.path.join(d, fn))
+    for k, c in enumerate(required_stream()):
+        with open(os.path.join(d, f"req_{k:03d}.json"), "w") as f:
+            json.dump(c, f)
 
 
 def generate(rng, tier):
     n = 560 if tier == "quick" else 25000
-    cases = required_stream() + [draw_one(rng) for _ in range(n)]
+    # the hand-written families are deterministic (constant seed); the run's seed drives only the random stream
+    cases = [dict(c, required=True) for c in families(C.Rng(REQUIRED_SEED + 1))] + [draw_one(rng) for _ in range(n)]
     if tier == "thorough":
         cases += exhaustive(rng)
     return cases
@@ -1320,8 +1336,9 @@ def problems(d):
     for k in ("dense", "mnt", "met", "dict", "featureless"):
         if d["storage"].get(k, 0) == 0:
             probs.append(f"storage kind {k} never drawn")
-    if d["rejections"] > 0.6 * d["total"]:
-        probs.append(f"{d['rejections']} of {d['total']} cases are rejections")
+    if d.get("nonmalformed_rejections", 0) > 0.6 * max(d.get("nonmalformed_total", 0), 1):
+        probs.append(f"{d.get('nonmalformed_rejections')} of {d.get('nonmalformed_total')} cases outside the deliberate "
+                     "rejection families are rejections")
     if d["eq_true"] == 0 or d["eq_false"] == 0:
         probs.append(f"== outcomes degenerate: {d['eq_true']} True, {d['eq_false']} False")
     if d["lookups"] == 0:
@@ -1779,6 +1796,9 @@ def stats(cases, obss):
         if c["kind"] == "rowpart":
             d["zero_row_parts"] += any(len(p) == 0 for p in c["meta"]["poss"])
         d["rejections"] += not o["a"]["ok"]
+        if c["kind"] != "malformed":                     # outside the deliberate rejection families
+            d["nonmalformed_total"] = d.get("nonmalformed_total", 0) + 1
+            d["nonmalformed_rejections"] = d.get("nonmalformed_rejections", 0) + (not o["a"]["ok"])
         eqs = o.get("eq_ab") if isinstance(o.get("eq_ab"), list) else [o.get("eq_ab")]
         d["eq_true"] += sum(e is True for e in eqs)
         d["eq_false"] += sum(e is False for e in eqs)
